@@ -73,6 +73,10 @@ func probe(dir, spec string) {
 		}
 		for _, r := range Returns(g) {
 			fmt.Printf("  return at %s kind=%d\n", w.Pos(r.Ret.Pos()), r.Kind)
+			for i, rv := range r.Ret.Results {
+				aps, _ := fl.Influence(rv)
+				fmt.Printf("        result%d (%s) <- %v\n", i, valDesc(rv), aps.Strings())
+			}
 		}
 		for _, m := range w.mutsIn(fl, g) {
 			fmt.Printf("  MUT %s %s tags=%v\n", w.Pos(m.Site.Instr.Pos()), m.Op, m.Tags)
